@@ -35,18 +35,21 @@ func c16(c *Ctx) {
 		d, ok := in.(*ssa.Defer)
 		return ok && p.CalleeName(d.Common()) == "litefs.(*GuardSet).Unlock"
 	}, 4, "the release of the write lock is deferred before the first change", "")
-	c.Before("import/journal-before-ltx", im, toLTX, inv, 1, "a pending journal is invalidated before the import transaction is built", "with or without a pending local journal: a hot journal left behind would roll the imported image back")
-	c.ErrHandled("import/journal-error", im, inv, toLTX, 1, "a failed journal invalidation ends the import", "")
-	c.ErrHandled("import/wal-error", im, tw, toLTX, 1, "a failed WAL truncation ends the import", "")
+	c.Before("import/discard-after-image-validated/journal", im, inv, toLTX, 1, "a pending journal is invalidated only after the whole image was read into a published LTX file", "an import that cannot be applied fails without changing the database: the journal and WAL hold state the image on disk depends on")
+	c.Before("import/discard-after-image-validated/wal", im, tw, toLTX, 1, "the WAL is truncated only after the whole image was read into a published LTX file", "committed transactions that live only in the WAL would be lost by a failed import while the position stays the same")
+	c.ErrHandled("import/ltx-error-discards-nothing", im, toLTX, Any(inv, tw, apply), 1, "a failed importToLTX (malformed, truncated, wrong page size) ends the import before anything local is discarded or applied", "an import that cannot be applied fails without changing the database")
+	c.Before("import/journal-before-apply", im, apply, inv, 1, "a pending journal is invalidated before the import transaction is applied", "with or without a pending local journal: a hot journal left behind would roll the imported image back")
+	c.ErrHandled("import/journal-error", im, inv, apply, 1, "a failed journal invalidation ends the import before the apply", "")
+	c.ErrHandled("import/wal-error", im, tw, apply, 1, "a failed WAL truncation ends the import before the apply", "")
 	{
-		// the WAL is emptied before the LTX is built whenever a WAL file exists
+		// the WAL is emptied before the apply whenever a WAL file exists
 		fn := c.F(im)
-		key, rule := "import/wal-before-ltx", "K1 Before (under assumed branch)"
-		desc := "when a WAL file exists it is truncated before the import transaction is built"
+		key, rule := "import/wal-before-apply", "K1 Before (under assumed branch)"
+		desc := "when a WAL file exists it is truncated before the import transaction is applied"
 		if c.need(key, rule, desc, fn, im) {
 			noWAL := p.EdgesAsserting(G(`\(litefs\.OS\.Stat\(.*"IMPORT:WAL".*\)#1 == nil\)`, false))
-			if f := (&Search{P: p, Fn: fn, Avoid: tw, Block: noWAL, Tgt: toLTX}).Run(); f != nil {
-				c.fail(key, rule, desc, "with or without a pending local WAL: frames left in the WAL override the imported pages for every reader", "importToLTX reachable with a WAL present and not truncated; path "+p.TraceString(f.Trace), 1)
+			if f := (&Search{P: p, Fn: fn, Avoid: tw, Block: noWAL, Tgt: apply}).Run(); f != nil {
+				c.fail(key, rule, desc, "with or without a pending local WAL: frames left in the WAL override the imported pages for every reader", "the apply is reachable with a WAL present and not truncated; path "+p.TraceString(f.Trace), 1)
 			} else if len(Instrs(fn, tw)) == 0 {
 				c.fail(key, rule, desc, "", "no TruncateWAL call in Import", 0)
 			} else {
@@ -56,7 +59,6 @@ func c16(c *Ctx) {
 	}
 	c.ExpectAll("import/truncate-to-zero", c.CallArgs(im, tw, 2), "0", 1, "the WAL is truncated to zero length", "")
 	c.Before("import/ltx-before-apply", im, apply, toLTX, 1, "the apply follows importToLTX", "")
-	c.ErrHandled("import/ltx-error", im, toLTX, apply, 1, "a failed importToLTX ends the import without applying anything", "an import that cannot be applied fails without changing the database")
 	c.ExpectAll("import/applies-own-file", c.CallArgs(im, apply, 1), pat("litefs.(*DB).LTXPath(p0, "+il+"(p0, p1, p2)#0.TXID, "+il+"(p0, p1, p2)#0.TXID)"), 1, "the file applied is the one importToLTX published (its returned TXID)", "")
 	c.Expect("import/returns-apply-error", strings.Join(c.returnsMatchingIdxOK(im, 0), ";"), pat("litefs.(*DB).ApplyLTXNoLock(@@)"), "Import returns the apply's error", "")
 	c.OnlyInScope("import/callers", []string{"litefs", "http", "fuse"}, p.Calls(im), []string{pat("http.(*Server).handlePostImport")}, 1, "Import is reached only through the HTTP import endpoint", "")
@@ -115,6 +117,10 @@ func c16(c *Ctx) {
 	c.Before("ltx/checksum-after-encode", il, p.PlainCalls("ltx.ChecksumPage"), enc, 1, "a page contributes to the checksum only after it was encoded (skipped lock page contributes nothing)", "")
 	c.ExpectAll("ltx/post-checksum", c.CallArgs(il, p.PlainCalls("ltx.(*Encoder).SetPostApplyChecksum"), 1), pat("{(9223372036854775808 | ({0|↺} ^ ltx.ChecksumPage("+pgno+", make([]byte, "+hdr+".PageSize))))|0}"), 1, "the post-apply checksum is ChecksumFlag | XOR of the page checksums, starting from 0", "as one new transaction that replicas apply to reach the identical image")
 	c.Expect("ltx/returns-pos", strings.Join(c.returnsMatchingIdxOK(il, 0), ";"), pat("ltx.Pos{TXID: (litefs.(*DB).Pos(p0).TXID + 1), PostApplyChecksum: @@}"), "importToLTX returns TXID previous+1 (the file it published)", "")
+
+	c.journalInvalidation("import/journal")
+	c.pageSizeOwners("validate/page-size-owners")
+	c.Guarded("validate/page-size-validated-before-use", il, p.Calls("ltx.LockPgno"), gs(GP("(ltx.(*Encoder).EncodeHeader(@@) == nil)", true)), 1, "the image's page size is used as a divisor (ltx.LockPgno) only after the encoder accepted the header (the only place that validates it)", "a page-size field of 0 in an otherwise well-formed image divides by zero inside the handler: the client gets no response and the write lock is held by a dead request")
 
 	// ---- validate before publish ----
 	sizeOK := [][]*Guard{{GP("(0 == p0.pageSize)", true), GP("("+hdr+".PageSize == p0.pageSize)", true)}}
@@ -175,4 +181,18 @@ func (c *Ctx) structFieldOfArg(fname string, m IM, idx int, f string) []string {
 		}
 	}
 	return out
+}
+
+// pageSizeOwners: DB.pageSize is learned from a database/journal/LTX header and never reset.
+func (c *Ctx) pageSizeOwners(key string) {
+	p := c.P
+	c.OnlyIn(key, p.Writes("litefs.DB.pageSize"), []string{pat("litefs.(*DB).initFromDatabaseHeader"), pat("litefs.(*DB).initDatabaseFile"), pat("litefs.(*DB).WriteDatabaseAt"), pat("litefs.(*DB).WriteJournalAt"), pat("litefs.(*DB).ApplyLTXNoLock")}, 5,
+		"DB.pageSize is written only where a header teaches it (database header at open, first page write, journal header, LTX header) - never reset, in particular not by Drop", "the page-size guard of the import relies on the remembered size; replicas keep theirs, so a primary that forgets it accepts an import that stops every replica")
+	var vals []string
+	for _, fn := range p.SrcFuncs() {
+		for _, in := range Instrs(fn, p.Writes("litefs.DB.pageSize")) {
+			vals = append(vals, fieldStoreVal(p, in))
+		}
+	}
+	c.ExpectAll(key+"/values", vals, `.*(PageSize|encoding/binary\.\(bigEndian\)\.Uint32).*`, 5, "every value written is a header's page-size field", "")
 }
